@@ -7,14 +7,23 @@ ASSUME = ["user actions give the file they write a current modification time (lo
           "projection (internal/project) and the independent signature verifier are trusted"]
 
 
+WIDE = "Edit,Touch,DeleteArt,Truncate,StripKey,Replace,MakeCsr,EditProfile,Expire"
+
+
 def run(ctx, replay=None):
     if ctx.quick:
-        mc = [dict(shape="chain", max_env=2)]
-        ex = [dict(shape="chain", max_env=2, flags="m,c,o", extra="a", faults=False)]
+        mc = [dict(shape="chain", max_env=2),
+              dict(shape="chain", max_env=2, flagsets="ExpiryFlagSets", env="WideEnv")]          # + profile edits and expiry
+        ex = [dict(shape="chain", max_env=2, flags="m,c,o", extra="a", faults=False),
+              dict(shape="chain", max_env=1, flags="m,c,e", faults=False, env=WIDE),
+              dict(shape="chain", max_env=2, flags="m,c", faults=False, env="EditProfile,Expire,Edit")]
     else:
-        mc = [dict(shape="chain", max_env=3), dict(shape="star", max_env=3), dict(shape="two", max_env=3)]
+        mc = [dict(shape="chain", max_env=3), dict(shape="star", max_env=3), dict(shape="two", max_env=3),
+              dict(shape="chain", max_env=3, flagsets="ExpiryFlagSets", env="WideEnv"), dict(shape="star", max_env=2, flagsets="NoAllFlagSets", env="WideEnv")]
         ex = [dict(shape="chain", max_env=3, flags="m,c,o", extra="a;c,e,m", faults=False),
               dict(shape="star", max_env=2, flags="m,c,o", extra="a", faults=False),
               dict(shape="two", max_env=2, flags="m,c,o", extra="a", faults=False),
-              dict(shape="chain", max_env=0, flags="m,c,o,e", extra="a", faults=True, random_walks=4000, walk_len=12)]
+              dict(shape="chain", max_env=2, flags="m,c,e", extra="o", faults=False, env=WIDE),
+              dict(shape="star", max_env=2, flags="m,c,e", faults=False, env="EditProfile,Expire,Edit,DeleteArt"),
+              dict(shape="chain", max_env=0, flags="m,c,o,e", extra="a", faults=True, random_walks=4000, walk_len=12, env=WIDE)]
     return repo.run_lifecycle(ctx, "C12", mc, ex, "model_checking", ASSUME, replay)
